@@ -11,6 +11,7 @@ import LasModel.Driver.ConvD
 import LasModel.Driver.XdD
 import LasModel.Driver.StreamD
 import LasModel.Driver.CompD
+import LasModel.Driver.CopcD
 namespace LasModel.Driver
 
 def dispatch (line : String) : String :=
@@ -27,6 +28,7 @@ def dispatch (line : String) : String :=
   | "xd" :: rest => (XdD.handle rest).getD "bad-op"
   | "st" :: rest => (StreamD.handle rest).getD "bad-op"
   | "cz" :: rest => (CompD.handle rest).getD "bad-op"
+  | "cp" :: rest => (CopcD.handle rest).getD "bad-op"
   | _ => "bad-op"
 
 partial def loop (h : IO.FS.Stream) (out : IO.FS.Stream) : IO Unit := do
